@@ -63,12 +63,20 @@ def main(argv: list[str]) -> int:
 		ctx = Ctx(pid, 'quick', seed)
 		acc = Acc()
 		mod.replay(ctx, v['case'], acc)
-		if acc.violations:
-			for x in acc.violations:
+		open_keys = {e['key'] for e in findings if e.get('status') == 'open'}
+		fresh = []
+		for x in acc.violations:
+			key = mod.classify(x) if hasattr(mod, 'classify') else None
+			if key in open_keys:
+				print(f"KNOWN-FINDING: property={pid} {key}: reproduced: {x['detail'][:300]}")
+			else:
+				fresh.append(x)
+		if fresh:
+			for x in fresh:
 				print(f"reproduced: {x['kind']}: {x['detail'][:2000]}")
 			print(f'VIOLATION property={pid} replay={argv[2]}')
 			return 1
-		print('not reproduced')
+		print('not reproduced' if not acc.violations else 'reproduced only listed known findings')
 		return 0
 
 	tier = argv[1]
